@@ -206,9 +206,16 @@ def nwords(x, wb=8):
 
 
 def load_known():
+    """known_findings.json; VERIF_ASSUME_FIXED=id,id treats the listed entries as fixed for this run (development aid,
+    like VERIF_REPO: used to test a candidate repair in a scratch worktree before the entry is flipped; nothing is written)"""
     if not os.path.exists(KNOWN):
         return []
-    return json.load(open(KNOWN))
+    known = json.load(open(KNOWN))
+    assume = [x for x in os.environ.get("VERIF_ASSUME_FIXED", "").split(",") if x]
+    for k in known:
+        if k.get("id") in assume:
+            k["status"] = "fixed"
+    return known
 
 
 def _rne_shift(m, k):
@@ -233,9 +240,16 @@ def ieee_double_rounded(sig, exp, ft):
     top = m.bit_length() - 1 + exp
     u = max(emin, top - (M - 1))
     out = {_rne_shift(m, u - exp)}           # magnitude bits when u == emin (also right for the carry into the first normal binade)
-    if ft == "f32" and top == -150 and m & (m - 1):
+    if ft == "f32" and top == -150 and m & (m - 1) and _status_of("F61") == "open":
         out.add(0)
     return out
+
+
+def _status_of(fid):
+    for k in load_known():
+        if k.get("id") == fid:
+            return k.get("status")
+    return None
 
 
 def f66_explains(e):
